@@ -1,7 +1,7 @@
 (* C03 - DTCWT analysis equals the reference: the column filters of the model equal the reference package's closed forms
    (Spec/DtcwtRef.v, tied to dtcwt.numpy.lowlevel by correspondence B) for every size and filter. *)
 From PW Require Import Base.Ops Base.Sum Base.Sig Base.Tensor Model.Dwt Model.Dtcwt Spec.Line Spec.DtcwtRef
-  Proofs.DwtNF Proofs.DtcwtNF Proofs.QuadProofs.
+  Proofs.DwtNF Proofs.DtcwtNF Proofs.DtcwtNFrow Proofs.QuadProofs.
 
 (* level 1: colfilter (odd length, symmetric extension) *)
 Theorem C03_colfilter :
@@ -20,6 +20,22 @@ Theorem C03_coldfilt :
     (col_spec x (tH x / 2) (fun n c i j => ref_coldfilt Op L (tH x) HA HB (fun q => tf x n c q j) (negb hp) i)).
 Proof. exact @dfilt_ref_col. Qed.
 Print Assumptions C03_coldfilt.
+
+(* the row twins (rowfilter, rowdfilt): the same closed forms along the last axis *)
+Theorem C03_rowfilter :
+  forall (R:Type) (Op:Ops R) (Rth:RingOk Op) (x:@ten R) (L:Z) (hh:Z->R),
+  1 <= L -> L mod 2 = 1 -> 1 <= tH x -> 1 <= tW x -> 0 < tC x ->
+  is_ok (linefilter Op 3 x L (rev_filt L hh) M_SYMM)
+    (row_spec x (tW x) (fun n c i j => ref_colfilter Op L (tW x) hh (fun q => tf x n c i q) j)).
+Proof. exact @linefilter_ref_row. Qed.
+Print Assumptions C03_rowfilter.
+Theorem C03_rowdfilt :
+  forall (R:Type) (Op:Ops R) (Rth:RingOk Op) (x:@ten R) (L:Z) (HA HB:Z->R) (hp:bool),
+  2 <= L -> 4 <= tW x -> tW x mod 4 = 0 -> 1 <= tH x -> 0 < tC x ->
+  is_ok (dfilt Op 3 x L (rev_filt L HA) (rev_filt L HB) hp)
+    (row_spec x (tW x / 2) (fun n c i j => ref_coldfilt Op L (tW x) HA HB (fun q => tf x n c i q) (negb hp) j)).
+Proof. exact @dfilt_ref_row. Qed.
+Print Assumptions C03_rowdfilt.
 
 (* q2c: the four complex planes in terms of the quad of the input (the reference's q2c formulas with s = 1/sqrt 2) *)
 Theorem C03_q2c :
